@@ -37,6 +37,7 @@ class Fragment:
     attr: Optional[Callable[[ModelBuilder, AObj, str, Any], AObj]] = None   # how an attribute of a value kind is attached
     filler: Callable[[str], str] = staticmethod(lambda s: s)   # maps the skeleton's own names into the format's alphabet
     roles: tuple[str, ...] = ("none", "left", "right", "neg-left", "under-neg-right", "inner", "twice")
+    attr_names: dict[str, str] = field(default_factory=dict)   # attribute name classes (with `values`)
     numeric: bool = False                                  # comparisons and arithmetic over feature references (UVL)
     exclude: Callable[[dict[str, Any]], Optional[str]] = staticmethod(lambda a: None)   # combination outside the fragment
 
@@ -85,6 +86,8 @@ def _dims(fr: Fragment) -> dict[str, list[str]]:
     d: dict[str, list[str]] = {"pos": slots, "name": list(fr.names)}
     if fr.values:
         d["value"] = ["no-attribute"] + list(fr.values)
+        if fr.attr_names:
+            d["attr-name"] = list(fr.attr_names)
     roles = [r for r in fr.roles if fr.negation or "neg" not in r] + (["compared", "arithmetic-operand"] if fr.numeric else [])
     if fr.ops:
         d["role"] = roles
@@ -107,7 +110,7 @@ def _ok(a: dict[str, str], fr: Fragment) -> bool:
 def assignments(fr: Fragment, cap: int = 80) -> tuple[list[dict[str, dict[str, str]]], int, int]:
     """Greedy pairwise covering design: a list of models, each {slot: {dim: class}}; (models, pairs, uncovered)."""
     dims = _dims(fr)
-    order = [k for k in ("name", "value", "role", "op", "type", "fcard", "abs") if k in dims]
+    order = [k for k in ("name", "value", "attr-name", "role", "op", "type", "fcard", "abs") if k in dims]
     names = list(dims)
     universe: set[tuple[tuple[str, str], tuple[str, str]]] = set()
     for i, x in enumerate(names):
@@ -117,6 +120,8 @@ def assignments(fr: Fragment, cap: int = 80) -> tuple[list[dict[str, dict[str, s
                     a = {x: vx, y: vy}
                     if "role" in a and "op" in a and a["role"] == "none":
                         continue                          # a feature outside every constraint has no operator
+                    if "value" in a and "attr-name" in a and a["value"] == "no-attribute":
+                        continue
                     if _ok(a, fr):
                         universe.add(((x, vx), (y, vy)))
     uncovered = set(universe)
@@ -224,7 +229,8 @@ def build(mb: ModelBuilder, fr: Fragment, asg: dict[str, dict[str, str]], index:
             if fr.attr is not None:
                 fr.attr(mb, f, vk, fr.values[vk])
             else:
-                f._f["attributes"].append(mb.attribute("attr", fr.values[vk], f))
+                an = fr.attr_names[asg[slot]["attr-name"]] if fr.attr_names else "attr"
+                f._f["attributes"].append(mb.attribute(an, fr.values[vk], f))
     n, o = mb.node, mb.op
     ctcs = []
     for slot, f in slots.items():
@@ -261,14 +267,72 @@ def build(mb: ModelBuilder, fr: Fragment, asg: dict[str, dict[str, str]], index:
     return mb.model(root, ctcs), f"pairwise model {index}: {desc}"
 
 
+_JOB: dict[str, Any] = {}
+
+
+def _work(i: int) -> Any:
+    """One model of the family, in a forked worker: the obligations it produces and the codec's side tables."""
+    from .absint import Interp
+    j = _JOB
+    cd, ctx = j["cd"], j["cd"].ctx
+    n0, c0, s0 = len(ctx.obligations), Interp.TOP_CALLS, Interp.TOTAL_STEPS
+    cd.unowned, cd.owned_seen, cd.n = {}, set(), 0
+    try:
+        m, what = build(j["mb"], j["fr"], j["models"][i], i)
+        cd.report(j["rule"], f"pairwise:{i:02d}", cd.roundtrip(m), what, j["owns"])
+    except Exception as exc:  # noqa: BLE001 - carried to the parent, which raises it as the analysis error it is
+        from .core import AnalysisError
+        return ("error", exc.rule if isinstance(exc, AnalysisError) else "ABSINT",
+                exc.reason if isinstance(exc, AnalysisError) else f"{type(exc).__name__}: {exc}",
+                getattr(exc, "where", ""))
+    from .model import DISCREPANCIES
+    return ("ok", ctx.obligations[n0:], dict(cd.unowned), set(cd.owned_seen), cd.n,
+            Interp.TOP_CALLS - c0, Interp.TOTAL_STEPS - s0, list(DISCREPANCIES))
+
+
 def sweep(cd: Any, mb: ModelBuilder, fr: Fragment, owns: tuple[str, ...], rule: str = "PAIRS",
           cap: int = 80, floor: int = 8) -> dict[str, int]:
-    """Round-trip every model of the covering family through the codec; returns the coverage figures."""
+    """Round-trip every model of the covering family through the codec; returns the coverage figures. The models are
+    independent of each other: they are evaluated by forked worker processes (as many as there are cores, at most 8)
+    and their obligations are merged in the order of the family, so the outcome does not depend on the scheduling."""
+    import os
+    from .absint import Interp
+    from .core import AnalysisError
+    from .model import DISCREPANCIES
     models, total, left = assignments(fr, cap)
-    for i, asg in enumerate(models):
-        m, what = build(mb, fr, asg, i)
-        cd.report(rule, f"pairwise:{i:02d}", cd.roundtrip(m), what, owns)
     if len(models) < floor:
-        from .core import AnalysisError
         raise AnalysisError(rule, f"pairwise family has {len(models)} models, fewer than the floor {floor}")
+    jobs = min(8, os.cpu_count() or 1, len(models))
+    if os.environ.get("VERIF_JOBS"):
+        jobs = max(1, int(os.environ["VERIF_JOBS"]))
+    _JOB.update(cd=cd, mb=mb, fr=fr, models=models, rule=rule, owns=owns)
+    saved = (dict(cd.unowned), set(cd.owned_seen), cd.n)
+    if jobs > 1:
+        import multiprocessing as mp
+        with mp.get_context("fork").Pool(jobs) as pool:
+            results = pool.map(_work, range(len(models)), chunksize=1)
+    else:
+        results = []
+        for i in range(len(models)):
+            n0 = len(cd.ctx.obligations)
+            r = _work(i)
+            if r[0] == "ok":
+                del cd.ctx.obligations[n0:]
+            results.append(r)
+    cd.unowned, cd.owned_seen, cd.n = saved
+    for r in results:
+        if r[0] == "error":
+            raise AnalysisError(r[1], r[2], r[3]) if r[3] else AnalysisError(r[1], r[2])
+        _, obls, unowned, owned_seen, n, calls, steps, disc = r
+        cd.ctx.obligations.extend(obls)
+        for c, t in unowned.items():
+            cd.unowned.setdefault(c, t)
+        cd.owned_seen |= owned_seen
+        cd.n += n
+        if jobs > 1:
+            Interp.TOP_CALLS += calls
+            Interp.TOTAL_STEPS += steps
+            for d_ in disc:
+                if d_ not in DISCREPANCIES:
+                    DISCREPANCIES.append(d_)
     return {"models": len(models), "pairs": total, "pairs-not-covered": left}
